@@ -342,6 +342,10 @@ fn programs(family: &str) -> Vec<(String, Outcome)> {
             p(&arms("        Y ->\n            print(2)\n        end\n        else\n            print(2)\n        end\n"), Outcome::Accept);
             p(&format!("{}start :: fn do\n    a := 1\n    case a do\n        X ->\n            print(2)\n        end\n        else\n            print(2)\n        end\n    end\nend\n", enum_a), Outcome::Reject);
             p(&arms("        X v ->\n            print(v + \"s\")\n        end\n        else\n            print(2)\n        end\n"), Outcome::Reject);
+            p(&format!("{}start :: fn do\n    a := A.Z 1\nend\n", enum_a), Outcome::Reject);
+            p(&format!("{}start :: fn do\n    a := A.Z\nend\n", enum_a), Outcome::Reject);
+            p(&format!("{}start :: fn do\n    a := A.X \"s\"\nend\n", enum_a), Outcome::Reject);
+            p(&format!("{}start :: fn do\n    a := A.X 1\n    b := A.Y\nend\n", enum_a), Outcome::Accept);
         }
         "blob" => {
             let b = "B :: blob {\n    a: int,\n    b: int,\n}\nX :: externblob {\n    a: int\n}\n";
